@@ -21,9 +21,9 @@ def placements(tier, tag):
 
 
 def codegen_check(pid, tier, backend):
-    plan = T(tier, [("base", 110), ("spill", 50), ("objects", 40)], [("base", 1500), ("spill", 800), ("objects", 700)])
+    plan = T(tier, [("base", 220), ("spill", 110), ("objects", 110)], [("base", 2500), ("spill", 1200), ("objects", 1200)])
     return lockstep.lockstep_check(
-        pid, tier, [backend], plan, maxsteps=T(tier, 5000, 20000), timeout=T(tier, 900, 7000),
+        pid, tier, [backend], plan, maxsteps=T(tier, 6000, 30000), timeout=T(tier, 900, 9000),
         directed=placements(tier, pid),
         extra_rule="plus directed linear families: literals of every magnitude at every position, 5 operators and 12 "
                    "comparison forms with operands/targets at enumerated positions across the register/spill boundary, "
